@@ -11,9 +11,9 @@
   Every theorem quantifies over EVERY `argsort` routine satisfying `IsArgsort` (a permutation of
   `range n` that sorts the keys; ties arbitrary) — numpy's unstable introsort included.
 -/
-import FcProofs.Lemmas.LexsortLadder
+import FcProofs.Lemmas.LexsortHyp
 namespace Fc
-open Spec
+open Fc.C02 Fc.C02.Spec
 
 /-! ## the sorting routine -/
 
@@ -182,6 +182,34 @@ theorem C02_sort_points_tie_independent {as1 as2 : List Int → List Nat} (h1 : 
     sortPointsIdx as1 t m = sortPointsIdx as2 t m := by
   unfold sortPointsIdx
   rw [sortPointsItems_tie_independent h1 h2 hyp hdist]
+
+/-- **Soundness of the decidable hypothesis.** What the driver evaluates and reports as `hyp`
+    (`Spec.pointHyp`: `Sep` for coordinates and candidate centres, coincident points have finite
+    adjacent centres, distinguishability) implies the Prop-level hypotheses of the theorems. -/
+theorem C02_hyp_sound {t : MeshTol} {m : Mesh} (h : pointHyp t m = true) :
+    PointHypP t (sepA t) (sepB t) (pointData (sepA t) m).M m (pointData (sepA t) m).cands ∧
+    (∀ a ∈ pitems m, ∀ b ∈ pitems m,
+      kvec (KC (sepA t) m) m.dim 0 a = kvec (KC (sepA t) m) m.dim 0 b →
+      kvec (KM (sepA t) (pointData (sepA t) m).cands argsortStable t m) m.dim 0 a =
+        kvec (KM (sepA t) (pointData (sepA t) m).cands argsortStable t m) m.dim 0 b → a = b) := by
+  unfold pointHyp at h
+  simp only [Bool.and_eq_true] at h
+  exact ⟨pointSep_sound h.1.2, distinguishable_sound h.2⟩
+
+/-- **The index map of `sort_points` is determined by the mesh alone.** Whenever the decidable
+    hypothesis holds, EVERY `argsort` routine (numpy's unstable one included) makes
+    `_sorting_points_indices` return — without raising — exactly the index map the driver computes
+    with its stable merge sort. -/
+theorem C02_sort_points_canonical {as : List Int → List Nat} (has : IsArgsort as) {t : MeshTol} {m : Mesh}
+    (h : pointHyp t m = true) :
+    sortPointsIdx as t m = sortPointsIdx argsortStable t m ∧ (sortPointsIdx as t m).isSome = true := by
+  obtain ⟨hyp, hdist⟩ := C02_hyp_sound h
+  have e := C02_sort_points_tie_independent isArgsort_stable has hyp hdist
+  refine ⟨e.symm, ?_⟩
+  by_cases hne : m.points = []
+  · unfold sortPointsIdx sortPointsItems; simp [hne]
+  · obtain ⟨L, eL, _, _⟩ := sortPointsItems_spec has hyp hne
+    unfold sortPointsIdx; simp [eL]
 
 /-- **C02_canonical_points (partial: the relabelling invariance of the keys is a hypothesis).**
     FULL STATEMENT (DESIGN §7): for `M₂ = relabel ρ M₁` (points permuted, cells permuted and
